@@ -78,14 +78,16 @@ def gen_exhaustive(rng, tier):
                     out.append((line_a(size, 0, hs, ops), {"kind": "A-exhaustive"}))
     # longer histories: sampled
     budget = {5: 5000, 6: 5000} if tier == "quick" else {6: 40000, 7: 40000}
+    nk = 3 if tier == "quick" else 4
+    alphabet = [(kind, k) for kind in "ad" for k in range(nk)]
     for n, cnt in budget.items():
         for _ in range(cnt):
             seq = [rng.choice(alphabet) for _ in range(n)]
             size = rng.randint(1, 8)
-            hs = rng.choice(hash_patterns(rng, size, 3))
+            hs = rng.choice(hash_patterns(rng, size, nk))
             ops = seq_to_ops(seq)
             if rng.random() < 0.15:
-                keys = sorted(set(rng.randrange(3) for _ in range(rng.randint(0, 2))))
+                keys = sorted(set(rng.randrange(nk) for _ in range(rng.randint(0, 2))))
                 ops.insert(rng.randint(1, len(ops)), "x" + (",".join(map(str, keys)) or "-"))
             out.append((line_a(size, 0, hs, ops), {"kind": "A-sampled-%d" % n}))
     return out
